@@ -200,8 +200,23 @@ def _captures_self(fi):
     return hits
 
 
+def _live_walk(expr):
+    """ast.walk that does not enter the dead arm of a conditional expression with a constant test"""
+    todo = [expr]
+    while todo:
+        n = todo.pop()
+        yield n
+        if isinstance(n, ast.IfExp) and isinstance(n.test, ast.Constant):
+            todo.append(n.body if n.test.value else n.orelse)
+            continue
+        todo.extend(ast.iter_child_nodes(n))
+
+
 def _mentions_bare_self(expr, tainted):
-    for n in ast.walk(expr):
+    if isinstance(expr, ast.IfExp) and isinstance(expr.test, ast.Constant):
+        yield from _mentions_bare_self(expr.body if expr.test.value else expr.orelse, tainted)
+        return
+    for n in _live_walk(expr):
         if isinstance(n, ast.Call):
             for a in list(n.args) + [k.value for k in n.keywords]:
                 if isinstance(a, ast.Name) and (a.id == 'self' or a.id in tainted):
